@@ -97,6 +97,10 @@ TrackDouble ==    \* mid.tracks[t] = mid.tracks[t] * 2   (the same message objec
   /\ \E t \in DOMAIN tracks : tracks[t] # <<>> /\ Len(tracks[t]) <= 2 /\
        Edit("track_double", t, 0, 0, [tracks EXCEPT ![t] = @ \o @], TRUE)
   /\ UNCHANGED nextid
+Flatten ==        \* mid.tracks[:] = [mid.merged_track]   (the usual way to flatten a file)
+  /\ "flatten" \in OpSet /\ ftype # 2 /\ tracks # <<>> /\ Len(Obs(tracks)) <= 4
+  /\ Edit("flatten", 0, 0, 0, <<Obs(tracks)>>, TRUE)
+  /\ UNCHANGED nextid
 TrackSlice ==     \* mid.tracks[t] = mid.tracks[t][1:]   (a slice of a MidiTrack is a MidiTrack)
   /\ "track_slice" \in OpSet
   /\ \E t \in DOMAIN tracks : tracks[t] # <<>> /\
@@ -117,7 +121,7 @@ SetTpb ==
   /\ UNCHANGED <<ftype, tracks, memo, nextid, doubled>>
 SetType ==
   /\ "set_type" \in OpSet
-  /\ \E v \in {1, 2} : v # ftype /\ ftype' = v
+  /\ \E v \in {0, 1, 2} : v # ftype /\ ftype' = v      \* types 0 and 1 are both synchronous: all tracks merge
        /\ hist' = Append(hist, [H("set_type", v, 0, 0, <<>>) EXCEPT !.type = v])
   /\ UNCHANGED <<tpb, tracks, memo, nextid, doubled>>
 
@@ -135,7 +139,7 @@ Init == /\ ftype = 1 /\ tpb = 480 /\ tracks = <<>> /\ memo = None /\ hist = <<>>
         /\ doubled = FALSE
 Next == /\ Len(hist) < MaxOps
         /\ \/ AddTrack \/ TracksAppend \/ TracksRemove \/ MsgAppend \/ MsgInsert \/ MsgDelete
-           \/ MsgSetTime \/ MsgSetAttr \/ MsgReplace \/ MsgSwapTimes \/ TrackSlice \/ TrackName \/ TrackDouble
+           \/ MsgSetTime \/ MsgSetAttr \/ MsgReplace \/ MsgSwapTimes \/ TrackSlice \/ TrackName \/ TrackDouble \/ Flatten
            \/ SetTpb \/ SetType
            \/ Observe("iterate") \/ Observe("length") \/ Observe("merged_track") \/ Observe("play") \/ Observe("iter_nested") \/ Save
 Spec == Init /\ [][Next]_vars
@@ -157,7 +161,7 @@ OpCode(op) == CASE op = "add_track" -> 1 [] op = "tracks_append" -> 2 [] op = "t
                 [] op = "save" -> 13 [] op = "play" -> 14
                 [] op = "msg_attr" -> 15 [] op = "msg_replace" -> 16 [] op = "msg_swap" -> 17
                 [] op = "track_slice" -> 18 [] op = "track_name" -> 19
-                [] op = "track_double" -> 20 [] op = "iter_nested" -> 21
+                [] op = "track_double" -> 20 [] op = "iter_nested" -> 21 [] op = "flatten" -> 22
 NObs == Cardinality({i \in DOMAIN hist : IsObs(hist[i]) \/ hist[i].op = "save"})
 Emit == (Len(hist) = MaxOps /\ NObs >= 1 /\ (IsObs(hist[MaxOps]) \/ hist[MaxOps].op = "save")) =>
   PrintT(ToString(<<"EMIT", Len(hist)>> \o
